@@ -205,7 +205,7 @@ func (op _OpContextType) decodeInst(x uint32) (as abi.As, arg *abi.AsArgument, a
 		argRaw.Rs1 = rj
 		argRaw.Imm = imm
 		arg.Rd = abi.RegType(code)
-		argRaw.Rs1 = rj
+		arg.Rs1 = op.decodeRegI(rj)
 		arg.Imm = imm
 		return
 	case OpFormatType_2R_msbw_lsbw:
